@@ -360,6 +360,54 @@ def r_stephelper(d):
     edit(p, f)
 R["26-per-cycle-step-helper"] = r_stephelper
 
+# 27 the negate-calculation flag of channel 1 renamed (S-neg finds it by role)
+def r_negflag(d):
+    import glob
+    n = 0
+    for p in glob.glob(os.path.join(d, "gameboy/audio/*.go")):
+        if p.endswith("_test.go"):
+            continue
+        s = open(p).read()
+        if "sweepDescending" in s:
+            open(p, "w").write(s.replace("sweepDescending", "negateUsed"))
+            n += 1
+    assert n > 0
+R["27-negate-flag-renamed"] = r_negflag
+
+# 28 wave RAM indexed by the low address bits
+def r_wavemask(d):
+    edit(os.path.join(d, "gameboy/audio/registers.go"), rep("a.ch3.waveram[addr-0xff30]", "a.ch3.waveram[addr&0x0f]"))
+R["28-wave-ram-low-bits"] = r_wavemask
+
+# 29 MBC3 clock-register test on bit 3 of the (masked) select register
+def r_mbc3bit(d):
+    edit(os.path.join(d, "gameboy/memory/mbc3.go"), rep("m.ramBank >= 0x08", "m.ramBank&0x08 != 0"))
+R["29-mbc3-select-bit-test"] = r_mbc3bit
+
+# 30 LD (HL),r through one closure-returning helper (the correct version of seeded change C23-11)
+def r_ldhlr(d):
+    seed = os.path.join(os.path.dirname(OUT), "..", "seeded", "C23-11", "patch.diff")
+    subprocess.run(["patch", "-p1", "-s", "-d", d, "-i", os.path.abspath(seed)], check=True)
+    edit(os.path.join(d, "gameboy/cpu/dispatch.go"), rep("normal[0x75] = []func(){nop, cpu.ldHLR(&cpu.h)}", "normal[0x75] = []func(){nop, cpu.ldHLR(&cpu.l)}"))
+R["30-ld-hl-r-closure-helper"] = r_ldhlr
+
+# 31 the serial writer guard turned around
+def r_sbguard(d):
+    edit(os.path.join(d, "gameboy/serial/serial.go"), rep("""	if s.writer == nil {
+		return
+	}
+	_, err := s.writer.Write([]byte{value})
+	if err != nil {
+		panic(fmt.Sprintf("Write to SB failed: %v", err))
+	}
+""", """	if s.writer != nil {
+		if _, err := s.writer.Write([]byte{value}); err != nil {
+			panic(fmt.Sprintf("Write to SB failed: %v", err))
+		}
+	}
+"""))
+R["31-serial-guard-turned-around"] = r_sbguard
+
 only = sys.argv[1:]
 for name, fn in R.items():
     if only and name not in only:
